@@ -279,3 +279,47 @@ Proof.
   - apply Forall_cons; [eexists; vm_compute; reflexivity | apply Forall_nil].
   - apply FA_here; [intros; discriminate | intros; discriminate |]. intros n H. vm_compute in H. discriminate H.
 Qed.
+
+(* the key is named AS WRITTEN (C17_map_value_error: mval_seg of the raw key k, whatever k' the key schema reads it as).
+   Non-vacuity with a key whose text is not the text of its value: limits: {"1kB": -1} under integer keys in bytes - the
+   key is 1024 after conversion, the error below it names "1kB", the key a workflow author wrote (seeded change C17-r2m3:
+   the segment built from the unserialized key says [1024]).  The same with "01" under plain integer keys. *)
+Definition c17_unit_key_schema : schema := SMap (SInt None None (Some unit_bytes)) (SInt (Some 0) None None) None None.
+Definition c17_unit_key_value : gval :=
+  VMap t_any_map false [(VStr TStr "2kB", VInt (TInt I64) 7); (VStr TStr "1kB", VInt (TInt I64) (-1))].
+Example C17_instance_key_as_written :
+  unser bool_words parse_units_float 2 c17_env (SInt None None (Some unit_bytes)) (VStr TStr "1kB") = Ok (vi64 1024) /\
+  fault_u bool_words parse_units_float c17_env 3 c17_unit_key_schema c17_unit_key_value ["[1kB]"] /\
+  unser bool_words parse_units_float 3 c17_env c17_unit_key_schema c17_unit_key_value = Err (mkErr true ["[1kB]"] EBound) /\
+  unser bool_words parse_units_float 3 c17_env (SMap (SInt None None None) (SInt (Some 0) None None) None None)
+    (VMap t_any_map false [(VStr TStr "01", VInt (TInt I64) (-1))]) = Err (mkErr true ["[01]"] EBound).
+Proof.
+  split; [vm_compute; reflexivity|]. split; [|split; vm_compute; reflexivity].
+  apply (FU_value bool_words parse_units_float c17_env 2 (SInt None None (Some unit_bytes)) (SInt (Some 0) None None) None None
+           t_any_map false [(VStr TStr "2kB", VInt (TInt I64) 7)] (VStr TStr "1kB") (VInt (TInt I64) (-1)) [] []).
+  - reflexivity.
+  - apply Forall_cons; [|apply Forall_nil]. split; eexists; vm_compute; reflexivity.
+  - apply Forall_nil.
+  - eexists; vm_compute; reflexivity.
+  - apply FU_leaf; [exact I|]. intros n H. vm_compute in H. discriminate H.
+Qed.
+
+(* history-independence of the predicted errors.  The model's operations are functions of (environment, schema, value):
+   nothing is remembered between calls, so in the list of predictions of a case the answer to a call depends on that call
+   alone - not on the calls (and rejections) before it, not on how often it is repeated.  The c17 runner evaluates every
+   call of a case twice on ONE schema instance in ONE process and each observation must equal this prediction (seeded
+   change C17-r2m4: a shared error value extended in place - the second rejection carries the first one's path too). *)
+From Verif Require Import Interp.Sexp Interp.RunSchema.
+
+Theorem C17_prediction_history_independent : forall e s before op after,
+  nth (List.length before) (map (run_op e s) (before ++ op :: after)) (Ls []) = run_op e s op.
+Proof.
+  intros e s before op after. rewrite map_app. rewrite app_nth2; rewrite map_length; [|apply le_n].
+  rewrite PeanoNat.Nat.sub_diag. reflexivity.
+Qed.
+Print Assumptions C17_prediction_history_independent.
+
+(* the same call three times in a row: the second answer is the answer *)
+Example C17_history_instance : forall op,
+  nth 1 (map (run_op c17_env c17_unit_key_schema) [op; op; op]) (Ls []) = run_op c17_env c17_unit_key_schema op.
+Proof. intro op. exact (C17_prediction_history_independent c17_env c17_unit_key_schema [op] op [op]). Qed.
